@@ -540,6 +540,10 @@ def run_case(case: dict, ctx: dict) -> dict:
     if cp.returncode != 0:
         bump("status", "compile-failed")
         first = [ln for ln in cp.stderr.decode("utf-8", "replace").split("\n") if "error" in ln][:2]
+        if str(case.get("label", "")).startswith("directed-"):
+            # the directed type sets are plain DSDL that compiles on the pinned tree: a failure here means that the
+            # harness (or the toolchain) is broken, and a batch that then "holds" would be vacuous
+            raise proc.HarnessError("harness build failed for %s (%s): %s" % (case.get("label"), cfg["name"], " | ".join(first)[:600]))
         return {"violations": [], "evaluations": 1, "skipped": 1, "executed": exec_case, "counters": counters, "nontrivial_keys": [], "states": [], "sample": {"compile_error": first, "config": cfg["name"]}}
     bump("status", "built")
 
